@@ -22,8 +22,8 @@ ASSUMPTIONS = [
     "coverage and exclusivity by R3 (vf/ref/acl.py); cases where the ideal coverage and the implementation's documented winner rule disagree (known findings of C06) are skipped and counted",
     "programs never yield rows in negated form",
 ]
-FLOORS = {"quick": {"runs": 1200, "outcome_ok": 300, "outcome_generator_error": 150, "outcome_not_exclusive": 60, "block_contexts_entered": 2000, "annotated_runs": 80, "annotated_rows": 200, "cases_with_a_silent_generator": 300},
-          "thorough": {"runs": 50000, "outcome_ok": 12000, "outcome_generator_error": 6000, "outcome_not_exclusive": 2500, "block_contexts_entered": 80000, "annotated_runs": 3000, "annotated_rows": 8000, "cases_with_a_silent_generator": 12000}}
+FLOORS = {"quick": {"runs": 1200, "outcome_ok": 300, "outcome_generator_error": 150, "outcome_not_exclusive": 60, "block_contexts_entered": 2000, "annotated_runs": 80, "annotated_rows": 200, "cases_with_a_silent_generator": 300, "cases_with_three_differently_written_rules": 300},
+          "thorough": {"runs": 50000, "outcome_ok": 12000, "outcome_generator_error": 6000, "outcome_not_exclusive": 2500, "block_contexts_entered": 80000, "annotated_runs": 3000, "annotated_rows": 8000, "cases_with_a_silent_generator": 12000, "cases_with_three_differently_written_rules": 12000}}
 VENDORS = ["huawei", "cisco", "arista", "nexus"]
 HEADS = ["a", "b", "c", "interface", "router", "x"]
 KEYS = ["k1", "k2", "e1", "10"]
@@ -56,7 +56,7 @@ def gen_program(rng, depth=0, budget=None):
         elif r < 0.8:
             out.append(["b", gen_row(rng).split(), gen_program(rng, depth + 1, budget)])
         elif r < 0.9:
-            toks = [rng.choice(HEADS), rng.choice(KEYS + [None, ""])]
+            toks = [rng.choice(HEADS), rng.choice(KEYS + [None, "", 0, False, 0.0])]  # 0 / False are values, only None and "" mean "absent"
             cond = rng.choice([None, None, True, False])
             if cond is True and toks[1] in (None, ""):
                 toks[1] = rng.choice(KEYS)  # a forced block with an empty token is a programming error of the generator, not a case of interest
@@ -283,7 +283,7 @@ def exclusive_walk(tree, locals_, globals_, prefix, path=()):
     return None
 
 
-def make_case(seed, silent=False):
+def make_case(seed, silent=False, ranked=False):
     rng = random.Random(seed)
     vname = rng.choice(VENDORS)
     ngen = rng.choice([1, 2, 2, 3, 4])
@@ -319,6 +319,22 @@ def make_case(seed, silent=False):
         spec = A.AclRule("ntp k1", cant_delete=[True])
         gens[a]["acl"] += [spec, A.AclRule("ntp ~")] if rng.random() < 0.7 else [spec]
         gens[b]["acl"] += [A.AclRule("ntp *")]
+    if ranked:
+        # one block row matched by three differently written rules of three generators: a specific local one, a %global one that
+        # ranks between, and a broad local one; the block's children come from both local rules
+        rrng = random.Random(seed ^ 0x7A)
+        row = "interface e%d.%d" % (rrng.randint(1, 3), rrng.randint(100, 102))
+        specs = [("GenSub", "interface */e\\d+\\.\\d+/", "vlan-type dot1q %d" % rrng.randint(1, 9), "vlan-type ~"),
+                 ("GenDescr", "interface *", "description d%d" % rrng.randint(1, 9), "description ~")]
+        rrng.shuffle(specs)
+        extra = []
+        for name, ppat, child, cpat in specs:
+            extra.append({"name": name, "program": [["b", row.split(), [["y", child]]]], "paths": [[row], [row, child]],
+                          "acl": [A.AclRule(ppat, children=[A.AclRule(cpat)])], "mode": "all"})
+        extra.append({"name": "GenFlow", "program": [["y", "flow k1"]], "paths": [["flow k1"]],
+                      "acl": [A.AclRule("flow *"), A.AclRule("interface ~", glob=True)], "mode": "all"})
+        rrng.shuffle(extra)
+        gens = [g for g in gens if not any(p and p[0].split()[0] in ("interface", "flow") for p in g["paths"])][:1] + extra
     if silent and gens and gens[0]["paths"]:
         # a generator that yields nothing on this device but whose ACL claims (deletably) rows another generator yields
         srng = random.Random(seed ^ 0x51)
@@ -330,14 +346,16 @@ def make_case(seed, silent=False):
     return vname, gens, rng
 
 
-def check_case(seed, acc, silent=False):
+def check_case(seed, acc, silent=False, ranked=False):
     from annet.generators import GeneratorError
     from annet.annlib.patching import AclNotExclusiveError, AclError
     from annet.vendors import registry_connector
     from vf import harness_gen as H
-    vname, gens, rng = make_case(seed, silent)
+    vname, gens, rng = make_case(seed, silent, ranked)
     if silent:
         acc.count("cases_with_a_silent_generator")
+    if ranked:
+        acc.count("cases_with_three_differently_written_rules")
     v = registry_connector.get()[vname]
     prefix = v.reverse
     dev = H.FakeDevice(v.hardware)
@@ -348,7 +366,7 @@ def check_case(seed, acc, silent=False):
         text = render_indented(g["acl"], rng)
         texts.append(text)
         real.append(H.make_partial(g["name"], vname, text, make_run(g["program"], counter)))
-    w = {"seed": seed, "silent": silent, "vendor": vname, "generators": [{"name": g["name"], "program": g["program"], "acl": A.render(g["acl"]), "acl_mode": g["mode"]} for g in gens]}
+    w = {"seed": seed, "silent": silent, "ranked": ranked, "vendor": vname, "generators": [{"name": g["name"], "program": g["program"], "acl": A.render(g["acl"]), "acl_mode": g["mode"]} for g in gens]}
     exp = expected_outcome(gens, prefix)
     if exp[0] == "skip":
         acc.count("skipped_known_acl_mechanism")
@@ -413,7 +431,7 @@ def c10_rows(tree):
 
 def run_shard(spec, acc):
     if spec["mode"] == "replay":
-        check_case(spec["witness"]["seed"], acc, silent=bool(spec["witness"].get("silent")))
+        check_case(spec["witness"]["seed"], acc, silent=bool(spec["witness"].get("silent")), ranked=bool(spec["witness"].get("ranked")))
         return
     tier, k, n = spec["tier"], spec["shard"], spec["nshards"]
     total = 2000 if tier == "quick" else 80000
@@ -424,3 +442,5 @@ def run_shard(spec, acc):
             acc.sample({k2: w[k2] for k2 in ("vendor", "generators", "expected")})
         if j % 5 == 1:
             check_case(rng.randrange(1 << 48), acc, silent=True)
+        if j % 5 == 3:
+            check_case(rng.randrange(1 << 48), acc, ranked=True)
